@@ -39,7 +39,7 @@ MERGE_PI = True
 
 def bounds(tier):
     return dict(shapes=[s.name for s in SHAPES[:NCUR]] + [s.name for s in PROPER] + ([f'{len(SHAPES) - NCUR} generated skeletons (2-3 states, 1-3 actions)'] if tier != 'quick' else []),
-                states='1..3 (4 for one goal-reaching shape)', actions='1..2 (3 in generated skeletons)', gammas=['1/2', '9/10', '1'], vi_sweeps=(5 if tier == 'quick' else 12),
+                states='1..3 (4 for one goal-reaching shape)', actions='1..2 (3 in generated skeletons)', gammas=['1/2', '9/10', '1'], vi_sweeps=(5 if tier == 'quick' else 6),
                 pi_rounds='|A|^S + 1', rewards='[-1,1] symbolic ([-1,0] at gamma=1)', residual='(0,1] symbolic')
 
 
@@ -593,13 +593,13 @@ def jobs(tier):
                 if quick:
                     K = 3 if i in dense else (4 if ver == 'dict' else 5)
                 else:
-                    K = (4 if ver == 'dict' else 6) if i in dense else 8
-                direct = (i not in dense) if quick else True
+                    K = (3 if ver == 'dict' else 4) if i in dense else (5 if ver == 'dict' else 6)
+                direct = (i not in dense)      # (dense skeletons: the distance to V* follows from the proved residual by the contraction lemma)
                 if quick and i in dense and ver == 'dict' and g != F(1, 2):
                     continue
                 yield ('vi_discounted', dict(shape=i, gamma=gs, version=ver, K=K, direct=direct), dict(o, cost=10 if i in dense else 1))
             if not (quick and i == 5):
-                yield ('pi_discounted', dict(shape=i, gamma=gs, direct=(i in (0, 1, 3)) or not quick), dict(o, cost=5))
+                yield ('pi_discounted', dict(shape=i, gamma=gs, direct=(i in (0, 1, 3)) or (not quick and i not in dense)), dict(o, cost=5))
         if not (quick and i in dense):
             yield ('vi_versions_agree', dict(shape=i, gamma='1/2', K=3 if quick else 5), o)
     for order in ['AB', 'BA']:
@@ -619,7 +619,7 @@ def jobs(tier):
         if quick and sh.S > 3:
             continue
         for ver in ['vectorized', 'dict']:
-            K = 4 if quick else 8
+            K = 4 if quick else 6
             yield ('vi_undiscounted', dict(shape=i, version=ver, K=K), o)
             yield ('vi_undiscounted', dict(shape=i, version=ver, K=K, extra_dead=True), o)
             yield ('vi_undiscounted', dict(shape=i, version=ver, K=K, extra_dead=True, wide_dead=True), o)
